@@ -27,6 +27,7 @@ import numpy as np
 from fractions import Fraction
 from . import gen
 from .lib import CoqFailure, coq_Z, coq_list, coq_bool, coq_nat
+from .pscommon import Once, run_nat_cases
 
 ATOL, RTOL = 1e-8, 1e-5
 
@@ -110,17 +111,7 @@ Definition run_vtk (c : vtk Qcring * vtk Qcring * bool) : nat :=
 
 
 def run_cases(ck, name, fn, terms, chunk=150):
-    codes = []
-    for a in range(0, len(terms), chunk):
-        body = "Eval vm_compute in (map %s %s)." % (fn, coq_list(terms[a:a + chunk]))
-        out = ck.coq_cases("%s_%d" % (name, a), body, IMPORTS)
-        txt = out[out.index("="):] if "=" in out else ""
-        txt = txt.split(":")[0]
-        got = [int(x) for x in re.findall(r"\d+", txt.replace("%nat", ""))]
-        if len(got) != len(terms[a:a + chunk]):
-            raise CoqFailure("could not parse model output: " + out[:300])
-        codes += got
-    return codes
+    return run_nat_cases(ck, name, IMPORTS, fn, terms, chunk)
 
 
 # ------------------------------------------------------------------------------------------------
@@ -213,7 +204,7 @@ def check_pairstate(ck, rng, pool):
                 sample={"type": "PairState", "a": str(a), "b": str(b), "a==b": e, "a-b": str(su), "a^b": str(xo)} if k < 2 else None)
         # ---- laws on the implementation
         def viol(law, extra=None):
-            ck.violation("PairState law fails: " + law, {"a": str(a), "b": str(b), "c": str(c), **(extra or {})}, key="c36-pairstate-" + law.split()[0])
+            V(ck)("PairState law fails: " + law, {"a": str(a), "b": str(b), "c": str(c), **(extra or {})}, key="c36-pairstate-" + law.split()[0])
         if not (a == a): viol("refl")
         if bool(a == b) != bool(b == a): viol("sym")
         if a == b and b == c and not (a == c): viol("trans")
@@ -240,7 +231,7 @@ def check_pairstate(ck, rng, pool):
     what = {1: "__eq__", 2: "__ne__", 3: "iszero", 4: "__add__", 5: "__sub__", 6: "__xor__", 7: "__neg__", 8: "zero()"}
     for (a, b), cde in zip(meta, codes):
         if cde:
-            ck.violation("PairState.%s differs from the model" % what[cde], {"a": str(a), "b": str(b)}, key="c36-corr-pairstate-%d" % cde)
+            V(ck)("PairState.%s differs from the model" % what[cde], {"a": str(a), "b": str(b)}, key="c36-corr-pairstate-%d" % cde)
     # ---- group action
     terms, meta = [], []
     ng = ck.n(160, 900)
@@ -255,14 +246,14 @@ def check_pairstate(ck, rng, pool):
         ga = a.g(crys, chem, g)
         ga_m = ga._replace(dx=np.round(ga.dx * 8) / 8) if intcart else ga
         if intcart and not np.allclose(ga.dx, ga_m.dx, atol=1e-9):
-            ck.violation("PairState.g: dx is not cartrot.dx", {"crystal": nm, "a": str(a), "ga": str(ga)}, key="c36-pairstate-g-dx")
+            V(ck)("PairState.g: dx is not cartrot.dx", {"crystal": nm, "a": str(a), "ga": str(ga)}, key="c36-pairstate-g-dx")
         terms.append("(%s, %s, %s)" % (lop_term(g, perm, t, cart), ps_term(a, intcart), ps_term(ga_m, intcart)))
         meta.append((nm, a, g))
         ck.case(key=("psg", nm, str(a), g.rot.tolist(), [float(x) for x in g.trans]), nontrivial=not np.array_equal(g.rot, np.eye(dim)),
                 kind="psg:%s-%s" % (nm.split("-")[0], "intcart" if intcart else "latt"),
                 sample={"type": "PairState.g", "crystal": nm, "a": str(a), "rot": g.rot.tolist(), "ga": str(ga)} if k < 1 else None)
         def viol(law, extra=None):
-            ck.violation("PairState group action: " + law, {"crystal": repr(crys), "chem": chem, "a": str(a), "b": str(b), "g": str(g), **(extra or {})},
+            V(ck)("PairState group action: " + law, {"crystal": repr(crys), "chem": chem, "a": str(a), "b": str(b), "g": str(g), **(extra or {})},
                          key="c36-pairstate-g-" + law.split()[0])
         gb = b.g(crys, chem, g)
         if not ((-a).g(crys, chem, g) == -ga): viol("neg")
@@ -277,7 +268,7 @@ def check_pairstate(ck, rng, pool):
     codes = run_cases(ck, "psg", "run_g", terms)
     for (nm, a, g), cde in zip(meta, codes):
         if cde:
-            ck.violation("PairState.g differs from the model (rot.R + delu_j - delu_i, indexmap, cartrot.dx)",
+            V(ck)("PairState.g differs from the model (rot.R + delu_j - delu_i, indexmap, cartrot.dx)",
                          {"crystal": nm, "a": str(a), "g": str(g)}, key="c36-corr-pairstate-g")
 
 
@@ -307,7 +298,7 @@ def check_clustersite(ck, rng, pool):
         ck.case(key=("cs", nm, str(a), str(b), v), nontrivial=True, kind="cs:" + ("eq" if e else "ne") + ("" if len(v) == dim else "-baddim"),
                 sample={"type": "ClusterSite", "a": str(a), "b": str(b), "v": v} if k < 1 else None)
         def viol(law):
-            ck.violation("ClusterSite law fails: " + law, {"a": str(a), "b": str(b), "c": str(c), "v": v, "crystal": nm}, key="c36-clustersite-" + law.split()[0])
+            V(ck)("ClusterSite law fails: " + law, {"a": str(a), "b": str(b), "c": str(c), "v": v, "crystal": nm}, key="c36-clustersite-" + law.split()[0])
         if not (a == a): viol("refl")
         if bool(a == b) != bool(b == a): viol("sym")
         if a == b and b == c and not (a == c): viol("trans")
@@ -322,7 +313,7 @@ def check_clustersite(ck, rng, pool):
     what = {1: "__eq__", 2: "__ne__", 3: "__add__", 4: "__sub__", 5: "__neg__", 6: "g"}
     for (nm, a, b, v), cde in zip(meta, codes):
         if cde:
-            ck.violation("ClusterSite.%s differs from the model" % what[cde], {"crystal": nm, "a": str(a), "b": str(b), "v": v}, key="c36-corr-clustersite-%d" % cde)
+            V(ck)("ClusterSite.%s differs from the model" % what[cde], {"crystal": nm, "a": str(a), "b": str(b), "v": v}, key="c36-corr-clustersite-%d" % cde)
 
 
 def check_cluster(ck, rng, pool):
@@ -372,7 +363,7 @@ def check_cluster(ck, rng, pool):
                 kind="cl:%s-%s-%s" % (mode, var, "eq" if e else "ne"),
                 sample={"type": "Cluster", "mode": mode, "variant": var, "sites": [str(s) for s in sites], "sites2": [str(s) for s in l2], "==": e} if k < 1 else None)
         def viol(law, extra=None):
-            ck.violation("Cluster law fails: " + law, {"mode": mode, "variant": var, "sites": [str(s) for s in sites], "sites2": [str(s) for s in l2], **(extra or {})},
+            V(ck)("Cluster law fails: " + law, {"mode": mode, "variant": var, "sites": [str(s) for s in sites], "sites2": [str(s) for s in l2], **(extra or {})},
                          key="c36-cluster-" + law.split()[0])
         if not (c1 == c1): viol("refl")
         if bool(c1 == c2) != bool(c2 == c1): viol("sym")
@@ -395,7 +386,7 @@ def check_cluster(ck, rng, pool):
     what = {1: "__init__ site order/shift", 2: "__equalitymap__", 3: "Norder", 4: "__eq__", 5: "__ne__", 9: "__init__ (model raises)"}
     for (nm, mode, var, sites, l2), cde in zip(meta, codes):
         if cde:
-            ck.violation("Cluster.%s differs from the model" % what[cde], {"crystal": nm, "mode": mode, "variant": var, "sites": [str(s) for s in sites],
+            V(ck)("Cluster.%s differs from the model" % what[cde], {"crystal": nm, "mode": mode, "variant": var, "sites": [str(s) for s in sites],
                                                                          "sites2": [str(s) for s in l2]}, key="c36-corr-cluster-%d" % cde)
 
 
@@ -445,7 +436,7 @@ def check_groupop(ck, rng, pool, finding):
             if near and law in ("sym", "trans"):
                 finding.append(("GroupOp " + law, rep))
             else:
-                ck.violation("GroupOp law fails: " + law, rep, key="c36-groupop-" + law)
+                V(ck)("GroupOp law fails: " + law, rep, key="c36-groupop-" + law)
         if not (a == a): viol("refl")
         if bool(a == b) != bool(b == a): viol("sym")
         if a == b and b == c and not (a == c): viol("trans")
@@ -454,7 +445,7 @@ def check_groupop(ck, rng, pool, finding):
     codes = run_cases(ck, "go", "run_go", terms, chunk=100)
     for (nm, var, a, b), cde in zip(meta, codes):
         if cde:
-            ck.violation("GroupOp.%s differs from the model" % {1: "__eq__", 2: "__ne__"}[cde],
+            V(ck)("GroupOp.%s differs from the model" % {1: "__eq__", 2: "__ne__"}[cde],
                          {"crystal": nm, "variant": var, "a": str(a), "b": str(b)}, key="c36-corr-groupop-%d" % cde)
 
 
@@ -491,7 +482,7 @@ def check_vtk(ck, rng, finding):
             if near and law in ("sym", "trans", "hash"):
                 finding.append(("vacancyThermoKinetics " + law, rep))
             else:
-                ck.violation("vacancyThermoKinetics law fails: " + law, rep, key="c36-vtk-" + law)
+                V(ck)("vacancyThermoKinetics law fails: " + law, rep, key="c36-vtk-" + law)
         if not (a == a): viol("refl")
         if bool(a == b) != bool(b == a): viol("sym")
         if a == b and b == c and not (a == c): viol("trans")
@@ -503,12 +494,12 @@ def check_vtk(ck, rng, finding):
         except NameError as ex:
             if ne_broken is None: ne_broken = (repr(ex), rep)
     if ne_broken is not None:
-        ck.violation("vacancyThermoKinetics.__ne__ raises %s (source: `return not __eq__(other)`); minimal patch: `return not self.__eq__(other)`"
+        V(ck)("vacancyThermoKinetics.__ne__ raises %s (source: `return not __eq__(other)`); minimal patch: `return not self.__eq__(other)`"
                      % ne_broken[0], {"call": "a != b", **ne_broken[1]}, key="c36-vtk-ne")
     codes = run_cases(ck, "vtk", "run_vtk", terms, chunk=100)
     for (var, a, b), cde in zip(meta, codes):
         if cde:
-            ck.violation("vacancyThermoKinetics.__eq__ differs from the model (allclose on the four arrays)",
+            V(ck)("vacancyThermoKinetics.__eq__ differs from the model (allclose on the four arrays)",
                          {"variant": var, "a": [x.tolist() for x in a], "b": [x.tolist() for x in b]}, key="c36-corr-vtk")
 
 
@@ -537,8 +528,16 @@ def replay_witnesses(ck, finding):
             finding.append(("witness " + k, {"witness": k, "implementation": list(got[k])}))
         else:
             # the model's witness does not reproduce: the model of allclose / hash is not the implementation's
-            ck.violation("Coq witness %s does not reproduce on the implementation: got %s, model says %s" % (k, got[k], expect[k]),
+            V(ck)("Coq witness %s does not reproduce on the implementation: got %s, model says %s" % (k, got[k], expect[k]),
                          {"witness": k, "got": list(got[k]), "expected": list(expect[k])}, key="c36-witness-mismatch")
+
+
+_once = {}
+
+
+def V(ck):
+    if id(ck) not in _once: _once[id(ck)] = Once(ck)
+    return _once[id(ck)]
 
 
 def run(ck):
@@ -562,5 +561,5 @@ def run(ck):
     ck.extra["near_equal_law_failures"] = len(finding)
     if finding:
         what, rep = finding[0]
-        ck.violation("tolerant __eq__ (numpy.allclose) is not an equivalence / vTK hashes exact bytes: %d failing near-equal cases, first: %s"
+        V(ck)("tolerant __eq__ (numpy.allclose) is not an equivalence / vTK hashes exact bytes: %d failing near-equal cases, first: %s"
                      % (len(finding), what), {"first": rep, "all": [f[0] for f in finding][:40]}, key="c36-allclose-not-equivalence")
